@@ -291,6 +291,9 @@ pub struct SendCase {
     /// RFC size of the section the application tries to send
     pub size: u64,
     pub by_adding: bool,
+    /// the stretched field is a `cookie` with three cookie-pairs (RFC 9114 4.2.1 lets a sender split it into one field
+    /// line per pair, which makes the section LARGER on the wire than what the application handed over)
+    pub cookie: bool,
     pub when: When,
 }
 
@@ -304,6 +307,32 @@ pub struct SendOutcome {
 }
 
 /// Fields the application hands to the API so that the section has exactly `size`.
+fn api_fields_c(slot: Slot, size: u64, by_adding: bool, cookie: bool) -> Option<(Vec<Field>, usize)> {
+    if !cookie {
+        return api_fields(slot, size, by_adding);
+    }
+    let fixed = api_fixed(slot);
+    let base = section_size(&fixed);
+    let lead = b"a=1; b=2; c=";
+    let need = 32 + 6 + lead.len() as u64;
+    if size < base + need {
+        return None;
+    }
+    let mut v = lead.to_vec();
+    v.extend(std::iter::repeat(b'v').take((size - base - need) as usize));
+    let mut all = fixed;
+    all.push(f("cookie", &v));
+    Some((all, 1))
+}
+
+fn api_fixed(slot: Slot) -> Vec<Field> {
+    match slot {
+        Slot::Request => vec![f(":method", b"GET"), f(":scheme", b"https"), f(":authority", b"a"), f(":path", b"/")],
+        Slot::Response => vec![f(":status", b"200")],
+        _ => vec![],
+    }
+}
+
 fn api_fields(slot: Slot, size: u64, by_adding: bool) -> Option<(Vec<Field>, usize)> {
     // what h3 itself adds: request => :method GET, :scheme https, :authority a, :path /
     let fixed: Vec<Field> = match slot {
@@ -354,7 +383,7 @@ pub fn send_run(c: &SendCase) -> SendOutcome {
     let sent = shared(false);
     let created = shared(false);
     let between = c.when == When::Between;
-    let (all, _) = api_fields(c.slot, c.size, c.by_adding).expect("reachable size");
+    let (all, _) = api_fields_c(c.slot, c.size, c.by_adding, c.cookie).expect("reachable size");
     let regs: Vec<Field> = all.iter().filter(|(n, _)| n[0] != b':').cloned().collect();
     let hm = {
         let mut h = http::HeaderMap::new();
@@ -628,7 +657,7 @@ fn limit_is<T: std::fmt::Debug>(settings: &T, v: u64) -> bool {
 
 pub fn judge_send(c: &SendCase, o: &SendOutcome) -> Vec<(String, String)> {
     let slot = format!("{:?}", c.slot);
-    let ctx = format!("{slot}: peer limit {} delivered {:?} the attempt, application section RFC size {} ({})", c.limit, c.when, c.size, if c.by_adding { "two extra fields" } else { "one stretched field" });
+    let ctx = format!("{slot}: peer limit {} delivered {:?} the attempt, application section RFC size {} ({})", c.limit, c.when, c.size, if c.cookie { "a cookie field with three pairs" } else if c.by_adding { "two extra fields" } else { "one stretched field" });
     let mut out = Vec::new();
     for (t, p) in &o.panics {
         out.push((format!("C10:send:{slot}:panic@{}", explore::panics::short_loc(p)), format!("{ctx}: task {t} panicked: {p}")));
@@ -654,7 +683,8 @@ pub fn judge_send(c: &SendCase, o: &SendOutcome) -> Vec<(String, String)> {
                         format!("{ctx}: HEADERS frame #{i} on the wire has RFC size {s}, limit in force {in_force}"),
                     ));
                 }
-                if i == target_index && s != c.size {
+                // (a cookie may legitimately go out as one field line per pair: then the wire section is larger)
+                if i == target_index && s != c.size && !(c.cookie && s > c.size) {
                     out.push((format!("C10:send:{slot}:harness-size-mismatch"), format!("{ctx}: wire section has size {s}")));
                 }
             }
@@ -675,7 +705,7 @@ pub fn judge_send(c: &SendCase, o: &SendOutcome) -> Vec<(String, String)> {
                 format!("{ctx}: expected {want}, got {:?}", o.result),
             ));
         }
-    } else if o.result != "ok" {
+    } else if o.result != "ok" && !(c.cookie && o.result.starts_with("HeaderTooBig(")) {
         out.push((
             format!("C10:send:{slot}:refused-within-limit:{}", if matches!(c.when, When::Before | When::Between | When::DuringOpen | When::AfterFirstExchange | When::Together) { "limit-applied" } else { "before-settings" }),
             format!("{ctx}: limit in force {in_force}; send returned {:?}", o.result),
@@ -691,7 +721,7 @@ pub fn run(args: &Args) -> i32 {
     let thorough = args.tier == Tier::Thorough;
     let mut rep = Report::new("C10", args.tier, args.seed, "model_checking");
     rep.exhaustive = true;
-    rep.rule = "receive: limits {0, 1, 33, 34, 35, 64, 89, 100, 167, 16383, 2^62-1} x sections whose RFC size sweeps L-2..L+2 (built by stretching one value and by adding a field, so the per-field +32 is exercised) plus the empty and the minimal section, reference-encoded (literal representations) and injected by a scripted peer as request headers, response headers, request trailers, response trailers (client side: through the original SendRequest handle and through a clone of it); the 431 path with the client advertising {nothing, 41, 42, 43}. send: the same limits advertised by a scripted peer x application sections sweeping L-2..L+2 x {send_request, send_response, request trailers, response trailers} x SETTINGS delivered {before the stream exists (and applied), after the stream exists but before the attempt (and applied), while send_request is parked waiting for stream credit (and applied before the credit comes), after a first request of the connection has been answered (the attempt is made on a second request), together with the request before the server first looks at the connection (request answered inline, accept() not polled again before the answer), after the attempt, never}; every HEADERS frame on the wire is decoded and measured by refimpl. states = distinct cases; non-trivial = cases at distance <= 2 from the limit.".into();
+    rep.rule = "receive: limits {0, 1, 33, 34, 35, 64, 89, 100, 167, 16383, 2^62-1} x sections whose RFC size sweeps L-2..L+2 (built by stretching one value and by adding a field, so the per-field +32 is exercised) plus the empty and the minimal section, reference-encoded (literal representations) and injected by a scripted peer as request headers, response headers, request trailers, response trailers (client side: through the original SendRequest handle and through a clone of it); the 431 path with the client advertising {nothing, 41, 42, 43}. send: the same limits advertised by a scripted peer x application sections sweeping L-2..L+2 x {send_request, send_response, request trailers, response trailers} x SETTINGS delivered {before the stream exists (and applied), after the stream exists but before the attempt (and applied), while send_request is parked waiting for stream credit (and applied before the credit comes), after a first request of the connection has been answered (the attempt is made on a second request), together with the request before the server first looks at the connection (request answered inline, accept() not polled again before the answer), after the attempt, never}; every size also reached with a cookie field of three cookie-pairs (which a sender may split into one field line per pair); every HEADERS frame on the wire is decoded and measured by refimpl. states = distinct cases; non-trivial = cases at distance <= 2 from the limit.".into();
     rep.assumptions = vec![
         "refimpl::fields::section_size = sum(name + value + 32) (RFC 9114 4.2.2)".into(),
         "the smallest request h3 delivers (CONNECT + :authority) has size 89: smaller limits are exercised at the boundary through trailers (regular fields only) and with always-oversize heads".into(),
@@ -775,8 +805,12 @@ pub fn run(args: &Args) -> i32 {
                         if matches!(when, When::AfterFirstExchange | When::Together) && !matches!(slot, Slot::Response | Slot::ResponseTrailers) {
                             continue;
                         }
-                        scases.push(SendCase { slot, limit: l, size: s, by_adding, when });
+                        scases.push(SendCase { slot, limit: l, size: s, by_adding, cookie: false, when });
                     }
+                }
+                // the same size reached with a cookie of three pairs (SETTINGS applied before the attempt)
+                if api_fields_c(slot, s, false, true).is_some() {
+                    scases.push(SendCase { slot, limit: l, size: s, by_adding: false, cookie: true, when: When::Before });
                 }
             }
         }
@@ -795,7 +829,7 @@ pub fn run(args: &Args) -> i32 {
         }
         acc.outcomes.insert(explore::fnv_str(o.result.split('(').next().unwrap_or("")) ^ 0x55);
         for (sig, msg) in judge_send(c, &o) {
-            acc.violation(sig, msg, (0, 0), || json!({"kind":"send","slot":format!("{:?}", c.slot),"limit":c.limit.to_string(),"size":c.size.to_string(),"by_adding":c.by_adding,"when":format!("{:?}", c.when)}));
+            acc.violation(sig, msg, (0, 0), || json!({"kind":"send","slot":format!("{:?}", c.slot),"limit":c.limit.to_string(),"size":c.size.to_string(),"by_adding":c.by_adding,"cookie":c.cookie,"when":format!("{:?}", c.when)}));
         }
     }));
     let mut total = Acc::new();
@@ -839,6 +873,7 @@ pub fn replay(r: &Value) -> i32 {
                 limit: r["limit"].as_str().unwrap().parse().unwrap(),
                 size: r["size"].as_str().unwrap().parse().unwrap(),
                 by_adding: r["by_adding"].as_bool().unwrap(),
+                cookie: r["cookie"].as_bool().unwrap_or(false),
                 when: match r["when"].as_str().unwrap() {
                     "Before" => When::Before,
                     "Between" => When::Between,
